@@ -25,7 +25,7 @@ type Profile struct {
 }
 
 func weighted(w map[string]int) []string {
-	order := []string{"resolve", "reserr", "state", "pick", "done", "adv", "failnew", "cancel", "allready", "bindflow", "decall", "readyrepl", "staledown", "emptypool", "saturate", "refreshcycle", "stalede", "affswap", "fbflow", "bindacross", "growmax", "multibind", "fillwm", "affburst", "flaprefresh", "rrempty", "rrstraddle", "unbindrace", "resurrect", "rrwrap", "rrdead", "fbtwice", "rrresurrect", "rrlongwait", "hashpair", "reserrdown", "resurrectgrow", "refreshresp", "rrdupspin", "crflow"}
+	order := []string{"resolve", "reserr", "state", "pick", "done", "adv", "failnew", "cancel", "allready", "bindflow", "decall", "readyrepl", "staledown", "emptypool", "saturate", "refreshcycle", "stalede", "affswap", "fbflow", "bindacross", "growmax", "multibind", "fillwm", "affburst", "flaprefresh", "rrempty", "rrstraddle", "unbindrace", "resurrect", "rrwrap", "rrdead", "fbtwice", "rrresurrect", "rrlongwait", "hashpair", "reserrdown", "resurrectgrow", "refreshresp", "rrdupspin", "crflow", "bounddead"}
 	var out []string
 	for _, k := range order {
 		for i := 0; i < w[k]; i++ {
@@ -532,6 +532,17 @@ func genStep(p *Profile, cfg *Config) *rapid.Generator[[]Op] {
 				}
 			}
 			return ops
+		case "bounddead":
+			// a key is bound, its channel reports SHUTDOWN and leaves the pool, the key is used again (what becomes of such a
+			// binding is not stated - but the picker still answers as its state says and nothing panics or hangs)
+			key := rapid.IntRange(0, 3).Draw(t, "bdk")
+			var ops []Op
+			for i := 0; i < 6; i++ {
+				ops = append(ops, Op{K: "state", Idx: i, St: 2})
+			}
+			ops = append(ops, Op{K: "pick", M: 1, Key: key}, Op{K: "done", Idx: -1, Out: 0}, Op{K: "state", Sel: 5, Key: key, St: 4},
+				Op{K: "pick", M: 2, Key: key}, Op{K: "pick", M: 3, Key: key}, Op{K: "pick", M: 2, Key: key, Pk: rapid.IntRange(0, 3).Draw(t, "bdpk")}, Op{K: "pick", M: 0})
+			return ops
 		case "crflow":
 			// three refreshes of one channel in a row; two calls stay open on it, so that (with the creation probe) a response
 			// can arrive while the second refresh is being started: the window counts from there again
@@ -784,9 +795,9 @@ var Profiles = map[string]*Profile{
 	"size": {Name: "size", Wild: true, WM: []int{1}, Fallback: 10, UdMs: []int64{0, 7}, UdCalls: []int{1}, Strict: 50, Shutdown: true,
 		W: map[string]int{"resolve": 3, "state": 10, "pick": 20, "done": 6, "adv": 1, "failnew": 2, "allready": 5, "decall": 3, "readyrepl": 3, "emptypool": 1, "saturate": 6, "growmax": 2, "fillwm": 2, "flaprefresh": 3, "resurrectgrow": 4, "refreshresp": 3}, Methods: []int{0, 0, 0, 2, 9}, NoFirst: 5},
 	"states": {Name: "states", Min: [2]int{1, 4}, Max: [2]int{1, 5}, WM: []int{1, 2, 100}, Fallback: 30, UdMs: []int64{7, 100}, UdCalls: []int{1}, Strict: 50, Shutdown: true, Hostile: true,
-		W: map[string]int{"resolve": 1, "state": 30, "pick": 8, "done": 4, "adv": 1, "allready": 2, "decall": 8, "readyrepl": 8, "staledown": 4, "refreshcycle": 3, "flaprefresh": 4}, Methods: allMethods},
+		W: map[string]int{"resolve": 1, "state": 30, "pick": 8, "done": 4, "adv": 1, "allready": 2, "decall": 8, "readyrepl": 8, "staledown": 4, "refreshcycle": 3, "flaprefresh": 4, "bounddead": 4}, Methods: allMethods},
 	"hostile": {Name: "hostile", Wild: true, WM: []int{1}, Fallback: 50, UdMs: []int64{0, 1, 7}, UdCalls: []int{0, 1}, RR: 25, Strict: 50, Shutdown: true, Hostile: true, CfgOps: true, NoFirst: 20,
-		W: map[string]int{"resolve": 4, "reserr": 2, "state": 12, "pick": 20, "done": 10, "adv": 2, "failnew": 3, "cancel": 2, "allready": 3, "bindflow": 4, "decall": 6, "readyrepl": 5, "staledown": 3, "emptypool": 1, "saturate": 2, "affswap": 3, "fbflow": 3, "refreshcycle": 2, "bindacross": 2, "multibind": 2, "rrempty": 3, "rrwrap": 2, "rrdupspin": 3}, Methods: hostileMethods},
+		W: map[string]int{"resolve": 4, "reserr": 2, "state": 12, "pick": 20, "done": 10, "adv": 2, "failnew": 3, "cancel": 2, "allready": 3, "bindflow": 4, "decall": 6, "readyrepl": 5, "staledown": 3, "emptypool": 1, "saturate": 2, "affswap": 3, "fbflow": 3, "refreshcycle": 2, "bindacross": 2, "multibind": 2, "rrempty": 3, "rrwrap": 2, "rrdupspin": 3, "bounddead": 3}, Methods: hostileMethods},
 	"detector": {Name: "detector", Min: [2]int{1, 3}, Max: [2]int{1, 3}, WM: []int{100, 100, 2}, UdMs: []int64{0, 1, 7, 100, 60000, 1 << 31, 1<<32 - 1}, UdCalls: []int{0, 1, 1, 2, 2, 3, 4, 1 << 31, 1<<32 - 1}, Strict: 50, Shutdown: true, RR: 20,
 		W: map[string]int{"resolve": 1, "state": 5, "pick": 8, "done": 8, "adv": 4, "failnew": 3, "allready": 2, "decall": 24, "readyrepl": 10, "refreshcycle": 10, "stalede": 8, "rrstraddle": 4, "crflow": 6}, Methods: []int{0, 0, 2, 1}},
 	"fallback": {Name: "fallback", Min: [2]int{2, 4}, Max: [2]int{2, 4}, WM: []int{1, 2, 3}, Fallback: 100, UdMs: []int64{0, 7, 100}, UdCalls: []int{1}, Strict: 50,
